@@ -214,6 +214,7 @@ func (x *Exec) bindParams(fc *FuncContract, callee *ssa.Function, args []Val) ma
 
 func (x *Exec) applyContract(st *State, fc *FuncContract, args []Val, rt types.Type, pos token.Pos, calleeName string, k func(*State, Val)) {
 	fc.Used = true
+	x.usedKeys[fc.Key] = true
 	if fc.Trusted {
 		x.trustedUsed[shortKey(fc.Key)] = true
 	}
@@ -299,7 +300,14 @@ func (x *Exec) applyContract(st *State, fc *FuncContract, args []Val, rt types.T
 	} else if res.S != "" || res.BI == "array" {
 		env2.result = []Val{res}
 	}
-	for _, ec := range fc.Ensures {
+	for i, ec := range fc.Ensures {
+		label := ec.Label
+		if label == "" {
+			label = fmt.Sprintf("ensures%d", i)
+		}
+		if x.w.isKnownFinding(strings.ReplaceAll(fc.Key, modPath+"/", "")+"#post."+label, "") {
+			continue // recorded as an open finding: not assumed
+		}
 		env2.heap = st.heap
 		g, err := env2.evalBool(ec.E)
 		if err != nil {
@@ -551,6 +559,9 @@ func (x *Exec) doGo(st *State, fr *Frame, in *ssa.Go) {
 		x.oblige(st, "spawn", x.site("go", in.Pos()), "contracted", x.fc.Tags, "false", in.Pos(), "go "+name+": the goroutine body has no contract (its effects are neither verified nor part of this function's post-state)")
 	}
 	if callee != nil {
+		if fc, ok := x.w.cs.Funcs[funcKey(callee)]; ok {
+			x.usedKeys[fc.Key] = true
+		}
 		if fc, ok := x.w.cs.Funcs[funcKey(callee)]; ok && len(fc.Spawns) > 0 {
 			var argv []Val
 			for _, a := range c.Args {
